@@ -581,8 +581,8 @@ fn zf_name_text(r: &mut Rng, labels: &[Vec<u8>], absolute: bool, esc_label: Opti
 fn zf_labels(r: &mut Rng, total: usize) -> Vec<Vec<u8>> {
     steered_label_lens(r, total).into_iter().map(|l| (0..l).map(|_| b'a' + r.below(26) as u8).collect()).collect()
 }
-/// While the lead has not decided on the finding, its hits are only counted.
-const HOLD_ZONEFILE_EMPTY_LABEL: bool = true;
+/// Fixed in /repo (b78a8a8): the class must stay silent.
+const HOLD_ZONEFILE_EMPTY_LABEL: bool = false;
 
 fn zonefile_case(out: &mut Out, r: &mut Rng) {
     use domain::base::name::{ToLabelIter, ToName};
